@@ -123,6 +123,9 @@ func (p Profile) String() string {
 	if p.TcapNameOnly {
 		s += "/xtgettcap-name-only"
 	}
+	if p.CellW == 0 || p.CellH == 0 {
+		s += "/no-pixel-sizes"
+	}
 	return fmt.Sprintf("%s/v%d/cur%d,%d/cs%d", s, p.Version, p.InitRow, p.InitCol, p.UserCursorStyle)
 }
 
